@@ -172,14 +172,32 @@ func worker(scenarios []Scenario, sh string, budget time.Duration) {
 		// the scenario body (the sequential set-up history on the real object) may itself panic on
 		// changed code: that is a verdict about the code, not a crash of the checker
 		setupPanic := ""
+		// The oracle's final observation (it reads the object under test through its public API) runs
+		// INSIDE the execution, as its last thread (vrt.SetFinal); finF/finOut hold its verdict.
+		var finF *Fail
+		var finOut string
+		finRan := false
 		body := func(s *vrt.Sched) {
-			setupPanic = ""
+			setupPanic, finRan = "", false
 			defer func() {
-				if p := recover(); p != nil {
+				if p := vrt.Recover(recover()); p != nil {
 					setupPanic = fmt.Sprint(p)
 				}
 			}()
 			obs = sc.Body(s)
+			s.SetFinal(func(x *vrt.Exec) {
+				finF, finOut = safeCheck(sc, x, obs)
+				finRan = true
+			})
+		}
+		check := func(x *vrt.Exec) (*Fail, string) {
+			if finRan {
+				return finF, finOut
+			}
+			if x.FinalStuck {
+				return &Fail{"final-observation-blocked", "after the execution had come to its end, reading the object under test through its public API blocked for ever: " + strings.Join(x.Blocked, "; ")}, ""
+			}
+			return safeCheck(sc, x, obs)
 		}
 		var vio *violation
 		judge := func(x *vrt.Exec) *Fail {
@@ -202,7 +220,7 @@ func worker(scenarios []Scenario, sh string, budget time.Duration) {
 			}
 			if x.Panic != "" {
 				// handed to the oracle: some properties tolerate none, all report it
-				f, _ := safeCheck(sc, x, obs)
+				f, _ := check(x)
 				if f != nil {
 					return f
 				}
@@ -211,7 +229,7 @@ func worker(scenarios []Scenario, sh string, budget time.Duration) {
 			if x.Deadlock && !sc.ExpectDeadlock {
 				return &Fail{"deadlock", "no thread can run: " + strings.Join(x.Blocked, "; ")}
 			}
-			f, out := safeCheck(sc, x, obs)
+			f, out := check(x)
 			outcomes[out] = true
 			return f
 		}
@@ -335,7 +353,7 @@ func worker(scenarios []Scenario, sh string, budget time.Duration) {
 // after the execution (final contents), and a panic there is a verdict about the code.
 func safeCheck(sc Scenario, x *vrt.Exec, obs any) (f *Fail, outcome string) {
 	defer func() {
-		if p := recover(); p != nil {
+		if p := vrt.Recover(recover()); p != nil {
 			msg := fmt.Sprint(p)
 			f, outcome = &Fail{"panic-in-final-observation:" + short(msg), "reading the object after the execution panicked: " + msg}, ""
 		}
@@ -603,11 +621,19 @@ func replayFile(scenarios []Scenario, file string) {
 			continue
 		}
 		var obs any
-		x := vrt.Run(vrt.RunConfig{Prefix: doc.Replay.Choices, Trace: true, Delay: sc.Delay, MaxSteps: sc.MaxSteps}, func(s *vrt.Sched) { obs = sc.Body(s) })
+		var f *Fail
+		var out string
+		ran := false
+		x := vrt.Run(vrt.RunConfig{Prefix: doc.Replay.Choices, Trace: true, Delay: sc.Delay, MaxSteps: sc.MaxSteps}, func(s *vrt.Sched) {
+			obs = sc.Body(s)
+			s.SetFinal(func(x *vrt.Exec) { f, out = safeCheck(sc, x, obs); ran = true })
+		})
 		for _, l := range x.Trace {
 			fmt.Println("  ", l)
 		}
-		f, out := safeCheck(sc, x, obs)
+		if !ran {
+			f, out = safeCheck(sc, x, obs)
+		}
 		fmt.Printf("deadlock=%v panic=%q races=%d outcome=%s\n", x.Deadlock, x.Panic, x.Races, out)
 		if f != nil || x.Panic != "" || (x.Deadlock && !sc.ExpectDeadlock) || x.Races > 0 {
 			fmt.Printf("REPRODUCED %v\n", f)
